@@ -279,12 +279,20 @@ func (u *universe) ty(e *sexp) types.Type {
 			bad("bad m")
 		}
 		return types.NewMap(u.ty(a[0]), u.ty(a[1]))
-	case "st":
+	case "st", "stt":
+		var tags []string
+		if e.list[0].atom == "stt" {
+			if len(a) < 2 || a[0].isL {
+				bad("bad stt")
+			}
+			tags = []string{"json:\"" + unesc(a[0].atom) + "\""}
+			a = a[1:]
+		}
 		fs := make([]*types.Var, len(a))
 		for i, f := range a {
 			fs[i] = types.NewField(token.NoPos, u.pkg(0), fmt.Sprintf("F%d", i), u.ty(f), false)
 		}
-		return types.NewStruct(fs, nil)
+		return types.NewStruct(fs, tags)
 	}
 	bad("unknown type head %q", e.list[0].atom)
 	return nil
@@ -326,6 +334,9 @@ func (u *universe) show(t types.Type) string {
 		return "(m," + u.show(t.Key()) + "," + u.show(t.Elem()) + ")"
 	case *types.Struct:
 		s := "(st"
+		if t.NumFields() > 0 && t.Tag(0) != "" {
+			s = "(stt," + esc(strings.TrimSuffix(strings.TrimPrefix(t.Tag(0), "json:\""), "\""))
+		}
 		for i := 0; i < t.NumFields(); i++ {
 			s += "," + u.show(t.Field(i).Type())
 		}
